@@ -32,7 +32,8 @@ theorem C07_cells (d : Doc) (cop : Spec.CmpOp) (m n : MVal F) (va vb : Spec.Valu
 /-- **C07 at expression level, through the builder**: for every boolean-valued expression of the
 fragment, every well-formed document and valid context node, the plan the builder makes evaluates
 to the boolean the oracle's top-level evaluation gives.  Hypotheses of C01 for the path operands
-(navigator exposing namespace URIs, NoFnvCollision). -/
+(navigator exposing namespace URIs,
+`HashInj` (node keys are injective: a theorem, `PathSem.hashInj_holds` — see the `_unconditional` corollary)). -/
 theorem C07_main {d : Doc} (wf : WF d) (cfg : ECfg) (hns : cfg.nsIface = true)
     (hinj : HashInj d cfg) (c : Ref) (hc : validRef d c = true) (regexOk : RegexOk) (limit : Nat)
     (sdf : Bool) (e : Ast) (h : XExp .bool e) (st : BState) (o : BOut)
@@ -40,6 +41,16 @@ theorem C07_main {d : Doc} (wf : WF d) (cfg : ECfg) (hns : cfg.nsIface = true)
     ∃ t : Bool, evalP (F := F) d cfg o.q c = .ok (.bool t) ∧
       Spec.evalTop (F := F) d e c = .ok (.bool t) :=
   build_bool_expr_sem wf cfg hns hinj c hc regexOk limit sdf e h st o hb
+
+/-- `C07_main` without the `HashInj` hypothesis (it is a theorem now: `hashInj_holds`; the side
+condition left is "no element has two attributes with the same prefix, name and value") -/
+theorem C07_main_unconditional {d : Doc} (wf : WF d) (cfg : ECfg) (hns : cfg.nsIface = true)
+    (hattr : AttrTriplesDistinct d) (c : Ref) (hc : validRef d c = true) (regexOk : RegexOk) (limit : Nat)
+    (sdf : Bool) (e : Ast) (h : XExp .bool e) (st : BState) (o : BOut)
+    (hb : build regexOk limit true sdf e {} st = .ok o) :
+    ∃ t : Bool, evalP (F := F) d cfg o.q c = .ok (.bool t) ∧
+      Spec.evalTop (F := F) d e c = .ok (.bool t) :=
+  C07_main wf cfg hns (PathSem.hashInj_holds wf hattr cfg) c hc regexOk limit sdf e h st o hb
 
 /-- the property's own fragment (comparisons over literals and paths on the listed pairs, closed
 under `and`/`or`/`not()`/`boolean()`) -/
@@ -50,6 +61,17 @@ theorem C07_listed_pairs {d : Doc} (wf : WF d) (cfg : ECfg) (hns : cfg.nsIface =
     ∃ t : Bool, evalP (F := F) d cfg o.q c = .ok (.bool t) ∧
       Spec.evalTop (F := F) d e c = .ok (.bool t) :=
   build_bexp_sem wf cfg hns hinj c hc regexOk limit sdf e h st o hb
+
+/-- `C07_listed_pairs` without the `HashInj` hypothesis (it is a theorem now: `hashInj_holds`; the side
+condition left is "no element has two attributes with the same prefix, name and value") -/
+theorem C07_listed_pairs_unconditional {d : Doc} (wf : WF d) (cfg : ECfg) (hns : cfg.nsIface = true)
+    (hattr : AttrTriplesDistinct d) (c : Ref) (hc : validRef d c = true) (regexOk : RegexOk) (limit : Nat)
+    (sdf : Bool) (e : Ast) (h : BExp e) (st : BState) (o : BOut)
+    (hb : build regexOk limit true sdf e {} st = .ok o) :
+    ∃ t : Bool, evalP (F := F) d cfg o.q c = .ok (.bool t) ∧
+      Spec.evalTop (F := F) d e c = .ok (.bool t) :=
+  C07_listed_pairs wf cfg hns (PathSem.hashInj_holds wf hattr cfg) c hc regexOk limit sdf e h st o
+    hb
 
 /-- a single comparison with the value spelled out: existential on node-sets is `Spec.compare` -/
 theorem C07_comparison_value {d : Doc} (wf : WF d) (cfg : ECfg) (hns : cfg.nsIface = true)
@@ -63,6 +85,21 @@ theorem C07_comparison_value {d : Doc} (wf : WF d) (cfg : ECfg) (hns : cfg.nsIfa
       evalP (F := F) d cfg o.q c = .ok (.bool (Spec.compare d cop va vb)) ∧
       Spec.eval (F := F) d (.oper op a b) ⟨c, 1, 1⟩ = .ok (.val (.bool (Spec.compare d cop va vb)) none) :=
   build_cmp_sem wf cfg hns hinj c hc regexOk limit sdf op cop a b hop ha hb hk st o hbd
+
+/-- `C07_comparison_value` without the `HashInj` hypothesis (it is a theorem now: `hashInj_holds`; the side
+condition left is "no element has two attributes with the same prefix, name and value") -/
+theorem C07_comparison_value_unconditional {d : Doc} (wf : WF d) (cfg : ECfg) (hns : cfg.nsIface = true)
+    (hattr : AttrTriplesDistinct d) (c : Ref) (hc : validRef d c = true) (regexOk : RegexOk) (limit : Nat)
+    (sdf : Bool) (op : String) (cop : Spec.CmpOp) (a b : Ast) (hop : Spec.CmpOp.ofString op = some cop)
+    (ha : Opnd a) (hb : Opnd b) (hk : pairC07 cop (okind a) (okind b) = true)
+    (st : BState) (o : BOut) (hbd : build regexOk limit true sdf (.oper op a b) {} st = .ok o) :
+    ∃ (va vb : Spec.Value F) (ga gb : Option (List (List Ref))),
+      Spec.eval (F := F) d a ⟨c, 1, 1⟩ = .ok (.val va ga) ∧
+      Spec.eval (F := F) d b ⟨c, 1, 1⟩ = .ok (.val vb gb) ∧
+      evalP (F := F) d cfg o.q c = .ok (.bool (Spec.compare d cop va vb)) ∧
+      Spec.eval (F := F) d (.oper op a b) ⟨c, 1, 1⟩ = .ok (.val (.bool (Spec.compare d cop va vb)) none) :=
+  C07_comparison_value wf cfg hns (PathSem.hashInj_holds wf hattr cfg) c hc regexOk limit sdf op cop
+    a b hop ha hb hk st o hbd
 
 /-- **short-circuit**: `or` with a true left operand is `true`, `and` with a false left operand is
 `false`, and the right operand is not evaluated (it may be any plan, even a failing one) -/
